@@ -55,9 +55,13 @@ def run(chk):
     blocksets = [(), (A.T,), (A.K,), (A.S(90),), (A.S(90), A.T), (A.S(90), A.S(91)), (A.D,),
                  (A.S(90, "", [], [A.S(92), A.S(93)]),), (A.S(90, "w"),), (A.S(90, "f"), A.S(91))]
     # wrong-typed request through each public entry point (0 cell.send_message, 1 ActorRef.send_message,
-    # 2 ActorRef.cast, 3 ActorRef.call, 4 ActorRef.call with timeout, 5 rpc::cast, 6 rpc::call), followed by a
+    # 2 ActorRef.cast, 3 ActorRef.call, 4 ActorRef.call with timeout, 5 rpc::cast, 6 rpc::call, 7 ActorRef.call_and_forward,
+    # 8 rpc::call_and_forward, 9 rpc::multi_call), followed by a
     # correct message that must still be handled; and correctly typed cast / call
-    entry_blocks = [(A.S(90, f"w{k}"), A.S(91)) for k in range(7)] + [(A.S(90, str(k)),) for k in (2, 3, 4, 6)]
+    entry_blocks = ([(A.S(90, f"w{k}"), A.S(91)) for k in range(10)] + [(A.S(90, str(k)),) for k in (2, 3, 4, 6)]
+                    # a request through call_and_forward / multi_call followed by another send of the same sender:
+                    # the request must be in the mailbox when the call returns (real-time order)
+                    + [(A.S(90, str(k)), A.S(91)) for k in (7, 8, 9)])
     for ns in (1, 2):
         for bs in entry_blocks:
             ex += A.gen_exhaustive(ns, 0, "plain", blocks=bs)
@@ -102,7 +106,8 @@ def run(chk):
         "exhaustive: every interleaving of {start_i, release_i} of 1..3 sender threads parked inside the send path with "
         "atomic blocks (un-gated sends, stop, kill, drain, wrong-typed send, failing handler, self-sending handler; "
         "wrong-typed and correctly typed requests through every public entry point: ActorCell::send_message, "
-        "ActorRef::<T>::from(cell).send_message / cast / call / call with timeout, rpc::cast, rpc::call); "
+        "ActorRef::<T>::from(cell).send_message / cast / call / call with timeout / call_and_forward, rpc::cast, rpc::call, "
+        "rpc::call_and_forward, rpc::multi_call); "
         "random: seeded structured scenarios (up to 3 parked threads, handler scripts with self-sends / drain / stop / kill, "
         "re-entrant sends from box_message, wrong type, failing box/handler); stress: 2..8 uncontrolled OS threads x 4..15 "
         "messages with a racing drain / stop / nothing (oracle only; mode 2 checks exactly-once while alive). "
